@@ -3,6 +3,7 @@ package c19
 import (
 	"bytes"
 	"context"
+	"errors"
 	"fmt"
 	"strings"
 	"sync"
@@ -23,6 +24,12 @@ import (
 // answer individual requests badly (any status, empty / 3 MB body, stream reset before or after the headers, the
 // whole connection killed, a stall past the response timeout, a body shorter than its Content-Length). None of that
 // is the documented fatal condition of the http2 guns ("target doesn't support HTTP/2"), so the run must go on.
+
+// The response timeout of the http2 guns: a TLS handshake per connection makes a well-behaved exchange slower than on
+// the plain target, so the client-side timeout is kept further away from it.
+const h2TimeoutMs = 400
+
+var h2Timeout = fmt.Sprintf("%dms", h2TimeoutMs)
 
 var h2MisKinds = []string{"status", "empty", "huge", "abort", "abort_mid", "kill_conn", "stall", "short_body"}
 
@@ -50,8 +57,10 @@ func genHs(t *rapid.T, failOneIn int) string {
 
 func (b Beh) h2resp() target.H2Resp {
 	switch b.Kind {
-	case "ok", "status", "empty", "stall":
+	case "ok", "status", "empty":
 		return target.H2Resp{Resp: b.resp()}
+	case "stall":
+		return target.H2Resp{Resp: target.Resp{Status: 200, DelayMs: 3 * h2TimeoutMs, Body: []byte("late")}}
 	case "huge":
 		return target.H2Resp{Resp: target.Resp{Status: 200, Body: bytes.Repeat([]byte("0123456789abcdef"), 200_000)}}
 	case "abort":
@@ -117,24 +126,60 @@ func genH2(t *rapid.T) H2Case {
 
 func clean(l line) bool { return l.proto == 200 && l.net == 0 }
 
+const netTimeout = 110 // phout net code of a client-side timeout
+
+// timeoutSuspect marks a failure whose only symptom is a client-side timeout (400 ms for the response, 1 s for the
+// TLS handshake) on an exchange the target handled well. Every connection of these tests costs a TLS handshake, and on
+// a busy machine a single goroutine can be kept waiting that long without vf's load probe noticing.
+type timeoutSuspect struct{ error }
+
+func (e *timeoutSuspect) Unwrap() error { return e.error }
+
+func suspectIfTimeout(l line, err error) error {
+	if l.net == netTimeout {
+		return &timeoutSuspect{err}
+	}
+	return err
+}
+
+// timeoutsMustRepeat reports a timeoutSuspect failure only when the case fails three evaluations in a row: a gun that
+// is really stuck after a fault times out every time. A case that passed the whole oracle on a repetition is counted
+// under class timeout_not_reproduced.
+func timeoutsMustRepeat[C any](prop func(C, *vf.Obs) error) func(C, *vf.Obs) error {
+	return func(c C, o *vf.Obs) error {
+		err := prop(c, o)
+		var ts *timeoutSuspect
+		for again := 0; again < 2 && errors.As(err, &ts); again++ {
+			time.Sleep(100 * time.Millisecond)
+			o2 := &vf.Obs{}
+			err = prop(c, o2)
+			*o = *o2
+			if err == nil {
+				o.Class("timeout_not_reproduced")
+			}
+		}
+		return err
+	}
+}
+
 func checkH2(c H2Case, o *vf.Obs) error {
 	tg, mu := target.SharedH2(!c.NoH2)
 	mu.Lock()
 	defer mu.Unlock()
 	var hmu sync.Mutex
-	hsAt := map[int]int{} // entry -> handshakes the target had seen when the entry's request arrived
+	hsAt := map[int]int{} // entry -> index of the handshake of the connection the entry's request arrived on
 	tg.Reset(func(k int) string {
 		if k < len(c.Handshakes) {
 			return c.Handshakes[k]
 		}
 		return target.HsOK
-	}, func(seq int, r *target.Rec, handshakes int) target.H2Resp {
+	}, func(seq int, r *target.Rec, hs int) target.H2Resp {
 		i := entryIndex(r.RequestURI)
 		if i < 0 || i >= len(c.Behs) {
 			return target.H2Resp{Resp: target.Resp{Status: 500}}
 		}
 		hmu.Lock()
-		hsAt[i] = handshakes
+		hsAt[i] = hs
 		hmu.Unlock()
 		return c.Behs[i].h2resp()
 	})
@@ -147,7 +192,7 @@ func checkH2(c H2Case, o *vf.Obs) error {
 	defer pand.Remove(name)
 	out := pand.TempName("c19h2", ".phout")
 	defer pand.Remove(out)
-	gun := map[string]any{"type": "http2", "target": tg.Addr(), "response-header-timeout": "150ms", "disable-keep-alives": !c.KeepAlive}
+	gun := map[string]any{"type": "http2", "target": tg.Addr(), "response-header-timeout": h2Timeout, "disable-keep-alives": !c.KeepAlive}
 	if c.Shared {
 		gun["shared-client"] = map[string]any{"enabled": true, "client-number": 1}
 	}
@@ -206,7 +251,7 @@ func checkH2(c H2Case, o *vf.Obs) error {
 			hsKinds[h] = true
 		}
 	}
-	notSeen, mis, goodAfterBad := 0, 0, false
+	notSeen, mis, goodAfterBad, unseenTimeout := 0, 0, false, false
 	for i, b := range c.Behs {
 		l, ok := byTag[fmt.Sprintf("t%d", i)]
 		if !ok {
@@ -214,6 +259,7 @@ func checkH2(c H2Case, o *vf.Obs) error {
 		}
 		if !seen[i] {
 			notSeen++
+			unseenTimeout = unseenTimeout || l.net == netTimeout
 			if clean(l) {
 				return fmt.Errorf("request %d never reached the target (handshakes %q) but its sample is a clean 200\n%s", i, hss, data)
 			}
@@ -221,8 +267,8 @@ func checkH2(c H2Case, o *vf.Obs) error {
 		}
 		if b.Kind == "ok" {
 			if !clean(l) {
-				return fmt.Errorf("request %d got a well-behaved 200 response over HTTP/2 but its sample says proto=%d net=%d (handshakes %q, behaviours %+v, %d instances, shared client %v, keep-alive %v)",
-					i, l.proto, l.net, hss, c.Behs, c.Instances, c.Shared, c.KeepAlive)
+				return suspectIfTimeout(l, fmt.Errorf("request %d got a well-behaved 200 response over HTTP/2 but its sample says proto=%d net=%d (handshakes %q, behaviours %+v, %d instances, shared client %v, keep-alive %v)",
+					i, l.proto, l.net, hss, c.Behs, c.Instances, c.Shared, c.KeepAlive))
 			}
 			if mis > 0 || failedHs > 0 {
 				goodAfterBad = true
@@ -236,7 +282,11 @@ func checkH2(c H2Case, o *vf.Obs) error {
 		}
 	}
 	if notSeen > failedHs {
-		return fmt.Errorf("%d requests never reached the target although only %d handshakes failed: the instances did not go on with the next ammo (handshakes %q)\n%s", notSeen, failedHs, hss, data)
+		err := fmt.Errorf("%d requests never reached the target although only %d handshakes failed: the instances did not go on with the next ammo (handshakes %q)\n%s", notSeen, failedHs, hss, data)
+		if unseenTimeout {
+			return &timeoutSuspect{err}
+		}
+		return err
 	}
 	goodAfterAlert := false
 	hmu.Lock()
@@ -244,7 +294,7 @@ func checkH2(c H2Case, o *vf.Obs) error {
 		if c.Behs[i].Kind != "ok" {
 			continue
 		}
-		for _, h := range hss[:min(nhs, len(hss))] {
+		for _, h := range hss[:max(0, min(nhs, len(hss)))] {
 			goodAfterAlert = goodAfterAlert || isAlert(h)
 		}
 	}
@@ -262,7 +312,7 @@ func checkH2(c H2Case, o *vf.Obs) error {
 func TestHTTP2Gun(t *testing.T) {
 	pand.Init()
 	r := vf.Start(t, "C19")
-	vf.Check(r, genH2, vf.LoadTolerant(25*time.Millisecond, checkH2))
+	vf.Check(r, genH2, vf.LoadTolerant(25*time.Millisecond, timeoutsMustRepeat(checkH2)))
 }
 
 // ---------------- http2/scenario ----------------
@@ -326,8 +376,8 @@ func checkH2Scen(c H2ScenCase, o *vf.Obs) error {
 			return c.Handshakes[k]
 		}
 		return target.HsOK
-	}, func(seq int, r *target.Rec, handshakes int) target.H2Resp {
-		a := handshakes - 1
+	}, func(seq int, r *target.Rec, hs int) target.H2Resp {
+		a := hs // keep-alives are off: the connection's handshake index is the attempt index
 		if a < 0 || a >= len(c.Behs) {
 			return Beh{Kind: "ok"}.h2resp()
 		}
@@ -341,7 +391,7 @@ func checkH2Scen(c H2ScenCase, o *vf.Obs) error {
 	defer pand.Remove(out)
 	pool := map[string]any{
 		"id":      "p",
-		"gun":     map[string]any{"type": "http2/scenario", "target": tg.Addr(), "response-header-timeout": "150ms", "disable-keep-alives": true},
+		"gun":     map[string]any{"type": "http2/scenario", "target": tg.Addr(), "response-header-timeout": h2Timeout, "disable-keep-alives": true},
 		"ammo":    map[string]any{"type": "http/scenario", "file": name, "limit": c.Shots},
 		"result":  map[string]any{"type": "phout", "destination": out},
 		"rps":     map[string]any{"type": "once", "times": c.Shots + 5},
@@ -392,8 +442,8 @@ func checkH2Scen(c H2ScenCase, o *vf.Obs) error {
 			switch {
 			case good(n):
 				if !clean(l) {
-					return fmt.Errorf("attempted step %d (invocation %d step %d) got a well-behaved 200 response over HTTP/2 but its sample says proto=%d net=%d (handshakes %q)\n%s\n%s",
-						n, j, i, l.proto, l.net, hss, data, yaml)
+					return suspectIfTimeout(l, fmt.Errorf("attempted step %d (invocation %d step %d) got a well-behaved 200 response over HTTP/2 but its sample says proto=%d net=%d (handshakes %q)\n%s\n%s",
+						n, j, i, l.proto, l.net, hss, data, yaml))
 				}
 				if bad > 0 {
 					goodAfterBad = true
@@ -435,5 +485,5 @@ func checkH2Scen(c H2ScenCase, o *vf.Obs) error {
 func TestHTTP2ScenarioGun(t *testing.T) {
 	pand.Init()
 	r := vf.Start(t, "C19")
-	vf.Check(r, genH2Scen, vf.LoadTolerant(25*time.Millisecond, checkH2Scen))
+	vf.Check(r, genH2Scen, vf.LoadTolerant(25*time.Millisecond, timeoutsMustRepeat(checkH2Scen)))
 }
